@@ -1103,6 +1103,12 @@ fn perturbations(base: &Base) -> Vec<Perturbed> {
       push("rename-rewriter-id", p.clone(), with(doc, &p, |v| *v = json!("nope-id")));
     }
   }
+  // P6c: drop the whole `rewriters` section while a transformation still refers to a rewriter
+  if doc.get("rewriters").is_some() && doc.to_string().contains("\"rewrite\"") {
+    let mut d = doc.clone();
+    d.as_object_mut().unwrap().remove("rewriters");
+    push("drop-rewriters-section", "/rewriters".to_string(), d);
+  }
   // P4a: drop one capture from one pattern (the pattern keeps matching the same nodes)
   let mut pats = vec![];
   find_keyed_strings(doc, "pattern", "", &mut pats);
